@@ -55,9 +55,40 @@ package excellent
 //@   nopanic
 //@   havocs WriteRune, String, ToLower, Sprintf
 //@   requires s != nil && inOK(s.input) && inputOK() && s.input.unreadCount <= 2
+//@   ensures [at_most_two_unread] inOK(s.input) && inputOK() && s.input.unreadCount <= 2
 //@   ensures [nil_allows_all] s.identifierTopLevels == nil ==> result0 == IDENTIFIER
 //@   ensures [empty_allows_none] (s.identifierTopLevels != nil && len(s.identifierTopLevels) == 0) ==> result0 == BODY
+// at each loop head one rune has just been read: at most one is left unread
 //@ loop 1
-//@   invariant inOK(s.input) && inputOK() && s.input.unreadCount <= 2
+//@   invariant inOK(s.input) && inputOK() && s.input.unreadCount <= 1
 //@ loop 2
-//@   invariant true
+//@   invariant inOK(s.input) && inputOK() && s.input.unreadCount <= 2
+
+// scanExpression (called right after "@(", nothing unread): never leaves anything unread; a text literal inside is skipped by
+// readTextLiteral, so parentheses are only counted outside literals
+//@ func (s *xscanner) scanExpression
+//@   nopanic
+//@   havocs WriteRune, String, Join
+//@   requires s != nil && inOK(s.input) && inputOK() && s.input.unreadCount == 0
+//@   ensures [nothing_unread] inOK(s.input) && inputOK() && s.input.unreadCount == 0
+//@   ensures [token] result0 == EXPRESSION || result0 == BODY
+//@ loop 1
+//@   invariant inOK(s.input) && inputOK() && s.input.unreadCount == 0
+
+// scanBody: stops in front of "@(" or "@name" by pushing the two runes back
+//@ func (s *xscanner) scanBody
+//@   nopanic
+//@   havocs WriteRune, String
+//@   requires s != nil && inOK(s.input) && inputOK() && s.input.unreadCount <= 2
+//@   ensures [at_most_two_unread] inOK(s.input) && inputOK() && s.input.unreadCount <= 2
+//@   ensures [token] result0 == BODY
+//@ loop 1
+//@   invariant inOK(s.input) && inputOK() && s.input.unreadCount <= 1
+
+// Scan: dispatches on the first one or two runes; whatever it reads ahead it pushes back, never more than the buffer holds
+//@ func (s *xscanner) Scan
+//@   nopanic
+//@   requires s != nil && inOK(s.input) && inputOK() && s.input.unreadCount <= 2
+//@   ensures [at_most_two_unread] inOK(s.input) && inputOK() && s.input.unreadCount <= 2
+//@ loop 1
+//@   invariant inOK(s.input) && inputOK() && s.input.unreadCount <= 1
